@@ -16,3 +16,4 @@ else
   cd /verif && DADI_REPO=$W ./check "$C" --tier "$T" 2>&1 | grep -v conda | grep -E 'VIOLATION|KNOWN|OK|FAIL|infrastructure'
   git -C /repo worktree remove --force $W; rm -rf $W
 fi
+/venv/bin/python /verif/tools/translate.py >/dev/null 2>&1  # restore Generated/*.lean to the unchanged tree
